@@ -476,15 +476,32 @@ class Body:
         k = t.get('t')
         if k == 'switch':
             d = self.operand(t['discr'], (a, 'T'))
-            vals = [int(v) for v, tgt in t['arms'] if tgt == b]
+            conv = self._switch_conv(t['discr'])
+            allv = tuple(conv(int(v)) for v, _ in t['arms'])
+            vals = tuple(conv(int(v)) for v, tgt in t['arms'] if tgt == b)
             if t['otherwise'] == b:
-                if vals:
-                    return None if len(self.succ[a]) == 1 else ('sw', d, ('in', tuple(vals), 'or-otherwise'))
-                return ('sw', d, ('not', tuple(int(v) for v, _ in t['arms'])))
-            return ('sw', d, ('in', tuple(vals)))
+                if len(self.succ[a]) == 1:
+                    return None
+                return ('sw', d, ('not', tuple(v for v in allv if v not in vals)))
+            return ('sw', d, ('in', vals))
         if k == 'assert':
             return ('assert', self.operand(t['cond'], (a, 'T')), t['expected'])
         return None
+
+    def _switch_conv(self, op):
+        """SwitchInt values are raw bits; reinterpret them in the (possibly signed) type of the operand"""
+        cr = self.crate
+        if op['o'] == 'const':
+            ty = cr.T(op['const']['ty'])
+        else:
+            p = op['place']
+            ty = cr.T(self.locals[p['l']]['ty']) if not p['pr'] else {'k': '?'}
+        if ty.get('k') == 'int' and ty.get('signed'):
+            bits = ty['bits']
+            def conv(v):
+                return v - (1 << bits) if v >= (1 << (bits - 1)) else v
+            return conv
+        return lambda v: v
 
     def dominating_guards(self, blk):
         """guards of every edge (p -> c) such that c dominates blk and p is c's only predecessor"""
